@@ -20,6 +20,31 @@ def diffEvOf (j : Json) : Except String DiffEv := do
   return { pk := ← asBytes (← fld j "pk"), sum := ← optBytesOf (fldD j "sum" Json.null), off := ← natFld j "off",
            oldSum := ← optBytesOf (fldD j "oldSum" Json.null), oldOff := ← natFld j "oldOff" }
 
+/-- What may be said of the events a differ produced BEFORE it reported an error: nothing wrong -
+    every event is one of the specification's (an added key is only in the first table, a removed key
+    only in the second, a modified key in both with different rows), no key twice, offsets right. -/
+def diffPartialVerdict (r1 r2 : List KRow) (evs : List DiffEv) : List String :=
+  let added := evs.filter (fun e => e.sum.isSome && e.oldSum.isNone)
+  let removed := evs.filter (fun e => e.sum.isNone && e.oldSum.isSome)
+  let modified := evs.filter (fun e => e.sum.isSome && e.oldSum.isSome)
+  let junk := evs.filter (fun e => e.sum.isNone && e.oldSum.isNone)
+  let sub := fun (a b : List Bytes) => a.all b.contains
+  let at1 := fun (off : Nat) => r1.find? (fun r => r.off == off)
+  let at2 := fun (off : Nat) => r2.find? (fun r => r.off == off)
+  (if sub (added.map (·.pk)) ((onlyIn r1 r2).map (·.pkSum)) then [] else ["added-exact"]) ++
+  (if sub (removed.map (·.pk)) ((onlyIn r2 r1).map (·.pkSum)) then [] else ["removed-exact"]) ++
+  (if sub (modified.map (·.pk)) ((changedIn r1 r2).map (·.pkSum)) then [] else ["modified-exact"]) ++
+  (if junk.isEmpty then [] else ["nothing-else"]) ++
+  (if nodupB (evs.map (·.pk)) then [] else ["no-key-twice"]) ++
+  (if (added ++ modified).all (fun e => match at1 e.off with
+        | some r => r.pkSum == e.pk && some r.rowSum == e.sum
+        | none => false) then [] else ["offset-addresses-row"]) ++
+  (if (removed ++ modified).all (fun e => match at2 e.oldOff with
+        | some r => r.pkSum == e.pk && some r.rowSum == e.oldSum
+        | none => false) then [] else ["old-offset-addresses-row"])
+
+def addNew (acc new : List String) : List String := acc ++ new.filter (fun c => !acc.contains c)
+
 def handleC04 (op : String) (input impl : Json) : Except String Json := do
   match op with
   | "diff" =>
@@ -38,6 +63,44 @@ def handleC04 (op : String) (input impl : Json) : Except String Json := do
       else if resClass impl == "panic" then pure ["no-panic"]
       else pure ["unexpected-error"]
     return reply mj (sameRes impl mj) viol
+  | "diff-fault" =>
+    -- the same diff on a store that fails some of its reads. A caller drains the diff channel and then
+    -- looks at the error channel: no error means the events ARE the diff, so every run either reports
+    -- an error or satisfies every clause of the property (`error-or-complete`); and what was emitted
+    -- before a reported error must be right as far as it goes. The run without a fault is judged as any
+    -- diff. Model: the fault-free event list; a run that reported an error must have emitted a prefix of
+    -- it, a run that did not, all of it.
+    if resClass impl == "err" && (input.getObjVal? "t1").toOption.isNone then
+      return reply (Json.mkObj [("res", "err")]) true []
+    let t1 ← tableOf (← fld input "t1")
+    let t2 ← tableOf (← fld input "t2")
+    let bs := Facts.blockSize
+    let m := diffRows Facts.diffEmptyGuard bs t1.toDTable t2.toDTable
+    let mj := jRes (fun evs => Json.arr (evs.map jDiffEv).toArray) m
+    if resClass impl == "panic" then return reply mj false ["no-panic"]
+    if resClass impl != "ok" then return reply mj false ["unexpected-error"]
+    let v := fldD impl "val" Json.null
+    let r1 := t1.krows bs
+    let r2 := t2.krows bs
+    let cleanEvs ← (← arrFld v "clean").mapM diffEvOf
+    let mevs := match m with
+      | .ok e => some e
+      | _ => none
+    let mut viol := diffVerdict r1 r2 cleanEvs
+    let mut agree := mevs == some cleanEvs
+    for run in ← arrFld v "runs" do
+      let evs ← (← arrFld run "events").mapM diffEvOf
+      let reported ← boolFld run "error"
+      if reported then
+        viol := addNew viol (diffPartialVerdict r1 r2 evs)
+        agree := agree && (match mevs with
+          | some e => evs.isPrefixOf e
+          | none => false)
+      else
+        let dv := diffVerdict r1 r2 evs
+        if !dv.isEmpty then viol := addNew viol ("error-or-complete" :: dv)
+        agree := agree && mevs == some evs
+    return reply mj agree viol
   | "diff-cli" =>
     -- `wrgl diff main main^ --no-gui`: the keys written as added / removed / modified are exactly the
     -- set difference on keys and the keys whose rows differ (first column = key)
